@@ -519,12 +519,11 @@ def swap_memory():
         with f:
             sin = sout = None
             for line in f:
-                # values are expressed in 4 kilo bytes, we want
-                # bytes instead
+                # values are expressed in pages, we want bytes instead
                 if line.startswith(b'pswpin'):
-                    sin = int(line.split(b' ')[1]) * 4 * 1024
+                    sin = int(line.split(b' ')[1]) * PAGESIZE
                 elif line.startswith(b'pswpout'):
-                    sout = int(line.split(b' ')[1]) * 4 * 1024
+                    sout = int(line.split(b' ')[1]) * PAGESIZE
                 if sin is not None and sout is not None:
                     break
             else:
